@@ -322,8 +322,9 @@ def run(ctx):
                     model_jobs.append({"pass": pass_model_name(p), "ir": L.raw(before, True)})
                     model_jobs.append({"pass": "id", "ir": L.raw(after, True)})
                     model_meta.append((name, p))
-    ctx.cov["programs"] = {"hand_written": len(hand), "corpus": len(corp), "generated_general": n_general,
-                           "generated_loopfree": n_loopfree, "not_lowered": n_lower_fail}
+    ctx.cov["programs"] = len(programs)
+    ctx.cov["programs_by_kind"] = {"hand_written": len(hand), "corpus": len(corp), "generated_general": n_general,
+                                   "generated_loopfree": n_loopfree, "not_lowered": n_lower_fail}
     feat = {}
     for c in gen_cases:
         for f in c13gen.features(c["prog"]):
